@@ -373,10 +373,12 @@ theorem tamperPayload_of_faithful (t : Tamper) (p : DescObs) (h : unfaithful t p
 
 /-- with a whole number of seconds the expiry is the (truncated) signing time plus the duration,
 whatever the sub-second part of the clock and whoever computes it -/
-theorem protectedAttrs_eq (alg : String) (p : DescObs) (ep : Bool) (d nowNs : Int) (hd : d % 1000000000 = 0) :
-    protectedAttrs alg p ep d nowNs =
+theorem protectedAttrs_eq (alg : String) (p : DescObs) (ep : Bool) (d nowNs : Int) (x : ExtAttrs)
+    (hd : d % 1000000000 = 0) :
+    protectedAttrs alg p ep d nowNs x =
       { alg := alg, payloadType := payloadTypeV1, payload := p, signingTime := nowNs / 1000000000,
-        expiry := if d ≠ 0 then some (nowNs / 1000000000 + d / 1000000000) else none } := by
+        expiry := if d ≠ 0 then some (nowNs / 1000000000 + d / 1000000000) else none,
+        ext := if ep then x else .none } := by
   have h1 : (d / 1000000000) * 1000000000 = d := by omega
   have h2 : (nowNs + d) / 1000000000 = nowNs / 1000000000 + d / 1000000000 := by omega
   cases ep <;> simp [protectedAttrs, h1, h2]
@@ -397,7 +399,7 @@ theorem signDesc_eq (C : Crypto) (key : C.Key) (i : Input) (nowNs : Int) (d : Fu
       if unfaithful (effectiveTamper i) (sanitised d) then none
       else some (envelopeOf C key i
         (protectedAttrs (specAlg i.keySpec) (tamperPayload (effectiveTamper i) (sanitised d))
-          (i.signer == .pluginEnvelope) i.durationNs nowNs)) := by
+          (i.signer == .pluginEnvelope) i.durationNs nowNs i.extAttrs)) := by
   unfold signDesc
   simp only [headerAlg_eq, primitiveHash_eq]
   have hp : payloadOf (if (i.signer == SignerKind.pluginEnvelope) = true then c07EnvelopePluginSanitizes
@@ -411,13 +413,13 @@ theorem signDesc_eq (C : Crypto) (key : C.Key) (i : Input) (nowNs : Int) (d : Fu
     rw [effectiveTamper_eq]; split <;> simp [tamperPayload]
   rw [hpay]
   have hi : ∀ ep : Bool, (envelopeOf C key i (protectedAttrs (specAlg i.keySpec)
-      (tamperPayload (effectiveTamper i) (sanitised d)) ep i.durationNs nowNs)).integrity = true :=
+      (tamperPayload (effectiveTamper i) (sanitised d)) ep i.durationNs nowNs i.extAttrs)).integrity = true :=
     fun ep => integrity_envelopeOf C key i _ (by simp [protectedAttrs])
   simp only [envelopeOf] at hi
   have h1 : ∀ ep : Bool, (protectedAttrs (specAlg i.keySpec) (tamperPayload (effectiveTamper i) (sanitised d))
-      ep i.durationNs nowNs).payloadType = payloadTypeV1 := fun _ => rfl
+      ep i.durationNs nowNs i.extAttrs).payloadType = payloadTypeV1 := fun _ => rfl
   have h2 : ∀ ep : Bool, (protectedAttrs (specAlg i.keySpec) (tamperPayload (effectiveTamper i) (sanitised d))
-      ep i.durationNs nowNs).payload = tamperPayload (effectiveTamper i) (sanitised d) := fun _ => rfl
+      ep i.durationNs nowNs i.extAttrs).payload = tamperPayload (effectiveTamper i) (sanitised d) := fun _ => rfl
   have hc := plugin_check_eq (effectiveTamper i) d
   by_cases hs : (i.signer == SignerKind.pluginEnvelope) = true
   · by_cases hu : unfaithful (effectiveTamper i) (sanitised d) = true
@@ -438,7 +440,8 @@ theorem signArgsOk_eq (d : Int) : signArgsOk d = (decide (0 ≤ d) && decide (d 
 def expectedAttrs (i : Input) (nowNs : Int) : Protected :=
   { alg := specAlg i.keySpec, payloadType := payloadTypeV1, payload := expectedPayload i,
     signingTime := nowNs / 1000000000,
-    expiry := if i.durationNs ≠ 0 then some (nowNs / 1000000000 + i.durationNs / 1000000000) else none }
+    expiry := if i.durationNs ≠ 0 then some (nowNs / 1000000000 + i.durationNs / 1000000000) else none,
+    ext := effectiveExt i }
 
 /-- a plugin that passes the check signed what verification must report -/
 theorem tamperPayload_expected (i : Input) (hu : unfaithful (effectiveTamper i) (requestedPayload i) = false) :
@@ -451,7 +454,7 @@ theorem signDesc_requested (C : Crypto) (key : C.Key) (i : Input) (nowNs : Int) 
     signDesc C key i i.keySpec.core nowNs d =
       if unfaithful (effectiveTamper i) (requestedPayload i) then none
       else some (envelopeOf C key i (expectedAttrs i nowNs)) := by
-  rw [signDesc_eq, hreq, protectedAttrs_eq _ _ _ _ _ h1]
+  rw [signDesc_eq, hreq, protectedAttrs_eq _ _ _ _ _ _ h1]
   by_cases hu : unfaithful (effectiveTamper i) (requestedPayload i) = true
   · simp [hu]
   · have hu' : unfaithful (effectiveTamper i) (requestedPayload i) = false := by simpa using hu
@@ -502,17 +505,24 @@ theorem processSignature_envelopeOf (C : Crypto) (key : C.Key) (i : Input) (attr
     (trust : C.Pub → Bool) (nowSec : Int) (halg : attrs.alg = specAlg i.keySpec)
     (hpt : attrs.payloadType = payloadTypeV1) (ht : trust (C.pub key) = true) :
     processSignature trust nowSec (envelopeOf C key i attrs) =
-      (match attrs.expiry with
-       | some x => decide (nowSec < x)
-       | none => true) := by
+      ((match attrs.expiry with
+        | some x => decide (nowSec < x)
+        | none => true) && !attrs.ext.hasCritical) := by
   have hi := integrity_envelopeOf C key i attrs halg
   simp only [processSignature, hi, Bool.true_and]
   cases hx : attrs.expiry <;> simp [envelopeOf, hpt, ht, hx]
 
-theorem notExpired_eq (i : Input) (nowNs : Int) :
-    (match (expectedAttrs i nowNs).expiry with
-     | some x => decide ((expectedAttrs i nowNs).signingTime + (i.lagSec : Int) < x)
-     | none => true) = !expiredAtVerify i := by
+/-- processSignature refuses the library's own signature: it has expired, or it carries a critical extended
+attribute nobody processes -/
+def blocked (i : Input) : Bool := expiredAtVerify i || unprocessedCritical i
+
+theorem notBlocked_eq (i : Input) (nowNs : Int) :
+    ((match (expectedAttrs i nowNs).expiry with
+      | some x => decide ((expectedAttrs i nowNs).signingTime + (i.lagSec : Int) < x)
+      | none => true) && !(expectedAttrs i nowNs).ext.hasCritical) = !blocked i := by
+  have hx : (expectedAttrs i nowNs).ext.hasCritical = unprocessedCritical i := rfl
+  rw [hx, blocked, Bool.not_or]
+  congr 1
   simp only [expectedAttrs, expiredAtVerify]
   by_cases hd : i.durationNs = 0
   · simp [hd]
@@ -586,7 +596,7 @@ theorem kvSubset_expected (i : Input) (w : List KV) (hl : legal i = true)
   · exact h
 
 def verifySpec (i : Input) : Bool :=
-  !expiredAtVerify i &&
+  !blocked i &&
   (match i.kind with
    | .oci => kvSubset (wantedMetadata i) (expectedPayload i).annotations
    | .blob =>
@@ -598,7 +608,7 @@ theorem kvSubset_nil (a : List KV) : kvSubset [] a = true := rfl
 
 /-- a verification call that asks for what was signed, before the expiry, succeeds -/
 theorem verifySpec_of_consistent (i : Input) (hl : legal i = true) (hc : consistentVerify i = true)
-    (he : expiredAtVerify i = false) : verifySpec i = true := by
+    (he : blocked i = false) : verifySpec i = true := by
   have hlegal := hl
   simp only [legal, Bool.and_eq_true, decide_eq_true_eq] at hl
   simp only [consistentVerify, Bool.and_eq_true, bne_iff_ne, ne_eq, Bool.or_eq_true, beq_iff_eq] at hc
@@ -667,9 +677,9 @@ theorem runWith_eq (C : Crypto) (key : C.Key) (trust : C.Pub → Bool) (ht : tru
       · simp [hd] <;> omega
     have hps : processSignature trust
         ((envelopeOf C key i (expectedAttrs i nowNs)).attrs.signingTime + (i.lagSec : Int))
-        (envelopeOf C key i (expectedAttrs i nowNs)) = !expiredAtVerify i := by
+        (envelopeOf C key i (expectedAttrs i nowNs)) = !blocked i := by
       rw [processSignature_envelopeOf C key i _ trust _ rfl rfl ht]
-      exact notExpired_eq i nowNs
+      exact notBlocked_eq i nowNs
     cases hk : i.kind with
     | oci =>
       have hv : verifyOCI trust ((envelopeOf C key i (expectedAttrs i nowNs)).attrs.signingTime + (i.lagSec : Int))
@@ -690,7 +700,7 @@ theorem runWith_eq (C : Crypto) (key : C.Key) (trust : C.Pub → Bool) (ht : tru
         have ha : (envelopeOf C key i (expectedAttrs i nowNs)).attrs.alg = specAlg i.keySpec := rfl
         have hp : (envelopeOf C key i (expectedAttrs i nowNs)).attrs.payload = expectedPayload i := rfl
         simp only [ha, hp, verifierDigestAlg_eq, digestOfFirst_all]
-        by_cases he : expiredAtVerify i = true
+        by_cases he : blocked i = true
         · simp [he]
         · simp only [he, Bool.not_false, Bool.true_and, Bool.not_true, Bool.false_eq_true, if_false]
           cases hm : addUserMetadata [] (wantedMetadata i) with
@@ -741,15 +751,20 @@ theorem model_holds (i : Input) (hwf : wf i = true) : Holds i (run i) = true := 
   · simp only [hl, if_true]
     by_cases hv : verifySpec i = true
     · have hf := expectedPayload_fields i
+      have hx : unprocessedCritical i = false := by
+        cases h3 : unprocessedCritical i
+        · rfl
+        · simp [verifySpec, blocked, h3] at hv
       cases hk : i.kind with
-      | oci => simp [hv, hk]
-      | blob => simp [hv, hk, hf.2.1, requestedPayload_blob i hk]
-    · have hne : ¬ (consistentVerify i = true ∧ expiredAtVerify i = false) := by
+      | oci => simp [hv, hk, hx]
+      | blob => simp [hv, hk, hx, hf.2.1, requestedPayload_blob i hk]
+    · have hne : ¬ (consistentVerify i = true ∧ blocked i = false) := by
         intro h
         exact hv (verifySpec_of_consistent i hl h.1 h.2)
       have hv' : verifySpec i = false := by simpa using hv
-      have hc : (consistentVerify i && !expiredAtVerify i) = false := by
-        cases h1 : consistentVerify i <;> cases h2 : expiredAtVerify i <;> simp_all
+      have hc : (consistentVerify i && !expiredAtVerify i && !unprocessedCritical i) = false := by
+        cases h1 : consistentVerify i <;> cases h2 : expiredAtVerify i <;> cases h3 : unprocessedCritical i <;>
+          simp_all [blocked]
       have hf := expectedPayload_fields i
       cases hk : i.kind with
       | oci => simp [hv', hk, hc]
@@ -763,7 +778,7 @@ the signature the signing API produces is accepted by the verification API under
 that trusts the signer, when the caller asks for what was signed before the expiry. -/
 theorem sign_then_verify_ok (C : Crypto) (key : C.Key) (trust : C.Pub → Bool)
     (ht : trust (C.pub key) = true) (nowNs : Int) (i : Input)
-    (hwf : wf i = true) (hl : legal i = true) (hc : consistentVerify i = true) (he : expiredAtVerify i = false) :
+    (hwf : wf i = true) (hl : legal i = true) (hc : consistentVerify i = true) (he : blocked i = false) :
     (runWith C key trust nowNs i).signed = true ∧ (runWith C key trust nowNs i).verified = true := by
   rw [runWith_eq C key trust ht nowNs i hwf]
   simp [obsSpec, hl, verifySpec_of_consistent i hl hc he]
@@ -771,7 +786,7 @@ theorem sign_then_verify_ok (C : Crypto) (key : C.Key) (trust : C.Pub → Bool)
 /-- the same at the level of the two APIs: the envelope exists and the verifier accepts it -/
 theorem sign_then_verify_ok_api (C : Crypto) (key : C.Key) (trust : C.Pub → Bool)
     (ht : trust (C.pub key) = true) (nowNs : Int) (i : Input)
-    (hwf : wf i = true) (hl : legal i = true) (hc : consistentVerify i = true) (he : expiredAtVerify i = false) :
+    (hwf : wf i = true) (hl : legal i = true) (hc : consistentVerify i = true) (he : blocked i = false) :
     ∃ e, signModel C key i nowNs = some e ∧
       (i.kind = .oci → verifyOCI trust (e.attrs.signingTime + (i.lagSec : Int)) i.desc (wantedMetadata i) e = true) ∧
       (i.kind = .blob → verifyBlob trust (e.attrs.signingTime + (i.lagSec : Int)) i.blob
@@ -861,8 +876,8 @@ theorem expiry_exact (C : Crypto) (key : C.Key) (nowNs : Int) (i : Input) (e : E
 /-- the guard is needed: with 1500 ms the truncated expiry would depend on the clock's
 sub-second part (1 s after a signing time of xx.4, 2 s after xx.6) -/
 theorem expiry_without_guard_depends_on_clock (p : DescObs) :
-    (protectedAttrs "ES256" p false 1500000000 400000000).expiry = some 1 ∧
-    (protectedAttrs "ES256" p false 1500000000 600000000).expiry = some 2 ∧
+    (protectedAttrs "ES256" p false 1500000000 400000000 .none).expiry = some 1 ∧
+    (protectedAttrs "ES256" p false 1500000000 600000000 .none).expiry = some 2 ∧
     signArgsOk 1500000000 = false := by
   refine ⟨by simp [protectedAttrs], by simp [protectedAttrs], by decide⟩
 
@@ -978,6 +993,33 @@ theorem other_signers_are_faithful (i : Input) (hs : i.signer ≠ .pluginEnvelop
 /-- a re-serialised payload (other member order, other white space) is the same payload -/
 theorem reserialised_is_faithful (p : DescObs) :
     tamperPayload .reserialised p = p ∧ unfaithful .reserialised p = false := ⟨rfl, rfl⟩
+
+/-- **The time zone of the signing process does not matter**: the stored expiry is the signing instant plus the
+requested duration, as instants (`expiry_exact`); nothing is computed on the calendar. -/
+theorem time_zone_irrelevant (i : Input) (z : String) : run { i with timeZone := z } = run i := rfl
+
+theorem time_zone_irrelevant_holds (i : Input) (z : String) (o : Obs) :
+    Holds { i with timeZone := z } o = Holds i o := rfl
+
+/-- non-critical extended attributes an envelope plugin adds do not stand in the way of verification; only a
+critical one nobody processes does, and then verification fails -/
+theorem noncritical_attributes_do_not_block (i : Input)
+    (h : i.extAttrs = .none ∨ i.extAttrs = .nonCritical ∨ i.extAttrs = .severalNonCritical) :
+    unprocessedCritical i = false := by
+  unfold unprocessedCritical effectiveExt
+  rcases h with h | h | h <;> rw [h] <;> split <;> rfl
+
+theorem other_signers_add_no_attributes (i : Input) (hs : i.signer ≠ .pluginEnvelope) :
+    unprocessedCritical i = false := by
+  unfold unprocessedCritical effectiveExt; simp [hs]; rfl
+
+theorem critical_attribute_blocks_verification (i : Input) (hwf : wf i = true) (h : unprocessedCritical i = true) :
+    (run i).verified = false := by
+  rw [run_eq i hwf]
+  unfold obsSpec
+  split
+  · simp [verifySpec, blocked, h]
+  · rfl
 
 /-- the bytes the envelope happens to end in, and a line break after a JWS envelope, do not matter -/
 theorem envelope_bytes_irrelevant (i : Input) (b : Option Nat) (nl : Bool) :
@@ -1132,7 +1174,8 @@ def exampleBlob : Input :=
     agent := "", verifyMediaType := .same, verifyMetadata := .all, lagSec := 1, exactIdentity := false, byTag := false,
     history := { position := 7, prevKeySpec := some .rsa2048, prevKind := some .oci, prevFormat := some .jws,
                  keyVia := .rotated },
-    tamper := .reserialised, envelopeLastByte := some 32, trailingNewline := false }
+    tamper := .reserialised, envelopeLastByte := some 32, trailingNewline := false,
+    extAttrs := .nonCritical, timeZone := "Australia/Lord_Howe" }
 
 /-- a concrete successful round trip (legal, verified, SHA-384 digest for an EC-384 key, 2 s expiry) -/
 example : obsSpec exampleBlob =
@@ -1163,6 +1206,18 @@ example : obsSpec { exampleBlob with signer := .pluginEnvelope, tamper := .chang
 example : (obsSpec { exampleBlob with signer := .pluginEnvelope, tamper := .addAnnotation }).userMetadata =
     some [⟨"buildId", "7"⟩, ⟨"c07.plugin.added", "x"⟩, ⟨"commit", "1"⟩] := by decide
 example : (obsSpec { exampleBlob with signer := .localKey, tamper := .dropAnnotation }).signed = true := by decide
+/-- a non-critical extended attribute of an envelope plugin: signed and verified; a critical one: signed, not verified;
+`Holds` is false if the non-critical one made verification fail -/
+example : (obsSpec { exampleBlob with signer := .pluginEnvelope, extAttrs := .severalNonCritical }).verified = true := by decide
+example : (obsSpec { exampleBlob with signer := .pluginEnvelope, extAttrs := .critical }).signed = true ∧
+    (obsSpec { exampleBlob with signer := .pluginEnvelope, extAttrs := .critical }).verified = false := by decide
+example : Holds { exampleBlob with signer := .pluginEnvelope, extAttrs := .nonCritical }
+    { (obsSpec { exampleBlob with signer := .pluginEnvelope, extAttrs := .nonCritical }) with
+      verified := false, returned := none, userMetadata := none } = false := by decide
+/-- `Holds` is false of an expiry that is off by an hour (a validity that crossed a daylight-saving change on the calendar) -/
+example : Holds { exampleBlob with durationNs := 8640000000000000 }
+    { (obsSpec { exampleBlob with durationNs := 8640000000000000 }) with expirySec := some (8640000 + 3600) } = false := by decide
+
 /-- `Holds` is false when a plugin's dropped annotation goes unnoticed: signed, verified, metadata lost -/
 example : Holds { exampleBlob with signer := .pluginEnvelope, tamper := .dropAnnotation, verifyMetadata := .nothing }
     { signed := true, verified := true,
